@@ -77,12 +77,18 @@ def new_agg():
 
 
 def _limit_memory():
-    """a per-process address-space limit (EQLMC_WORKER_MEM_GB, default 2.5): a case that never stops allocating - a changed
-    library that loops - fails with MemoryError instead of taking the machine down"""
+    """a per-process address-space limit (what the worker has mapped when it starts + EQLMC_WORKER_MEM_GB, default 2.5): a case
+    that never stops allocating - a changed library that loops - fails with MemoryError instead of taking the machine down"""
     try:
         import resource
-        limit = int(float(os.environ.get("EQLMC_WORKER_MEM_GB", "2.5")) * (1 << 30))
+        # (on top of what the process has mapped already: a worker is forked from a parent that holds the set of the cases
+        # enumerated so far, which is several GB for the deepest thorough tiers)
+        with open("/proc/self/statm") as f:
+            mapped = int(f.read().split()[0]) * os.sysconf("SC_PAGE_SIZE")
+        limit = mapped + int(float(os.environ.get("EQLMC_WORKER_MEM_GB", "2.5")) * (1 << 30))
         soft, hard = resource.getrlimit(resource.RLIMIT_AS)
+        if soft != resource.RLIM_INFINITY:
+            return          # set already for this process (the limit is per worker, not per batch)
         if hard == resource.RLIM_INFINITY or limit < hard:
             resource.setrlimit(resource.RLIMIT_AS, (limit, hard))
     except Exception:
